@@ -555,6 +555,10 @@ func runC06(c *Ctx) {
 				if call == s.Call || newHelperCallee(call) != nil || ownAppends[call] {
 					continue
 				}
+				// len / cap only look at the slice header: they cannot reorder it
+				if n := CalleeName(call.Common()); n == "builtin:len" || n == "builtin:cap" {
+					continue
+				}
 				for _, arg := range call.Common().Args {
 					sv := valueOrigin(arg)
 					if sl, isSl := sv.(*ssa.Slice); isSl {
